@@ -43,7 +43,8 @@ pub open spec fn md_step(s: MdS, t: MarkdownToken) -> Option<MdS> {
             None => Some(MdS { titles: Seq::empty(), ..s }),
         },
         MarkdownToken::VerbatimCodeBlock { starting_line_number, language, lines } =>
-            if language@.len() == 0 { None } else { Some(s) },
+            // a code block of another language ends the title paragraph before it (the pending title stays)
+            if language@.len() == 0 { None } else { Some(MdS { titles: Seq::empty(), ..s }) },
         MarkdownToken::TestCodeBlock { language, config_lines, comment_lines, code_lines } =>
             if config_lines@.len() > 0 && !yaml_tc_ok(braced(join_nl(numbered_texts(config_lines@)))) { None }
             else {
